@@ -34,6 +34,9 @@ EXHAUSTIVE = {
                 "<=5 nodes labelled from {a,b,ab} by sibling position, both duplicate settings",
 }
 MODELLED = [
+    "inputs are values on the model side: attribute maps shared between entries are seen expanded, two builds from the "
+    "same input object must both equal the model's single answer, and the input (path list / dict / DataFrame / "
+    "node_attrs) is deep-compared before/after every call (oracle clause 'input not modified')",
     "strings are List Char; lstrip/rstrip(sep) strip the character set of sep as CPython does; split is leftmost non-overlapping",
     "a DataFrame is a list of rows (path, cells) with homogeneous columns (int|str|bool + missing); pandas' int->float "
     "up-casting is normalised (1.0 == 1); the string values 'nan'/'None' are not generated (pandas' astype(str) "
